@@ -421,6 +421,7 @@ func c11Args(p *Program, r *Report, m *vmModel, sums *typeSummaries, va *evalAna
 	c11Positional(p, r, m)
 	c11DirectSignatures(p, r, m)
 	c11SlotsFilled(p, r, m)
+	c11DirectGuards(p, r, m)
 }
 
 // c11IsElementOf: the appended value is (a conversion or boxing of) x.Index(i).
@@ -1893,4 +1894,140 @@ func sameBaseLoad(a, b ssa.Value) bool {
 	ua, ok1 := a.(*ssa.UnOp)
 	ub, ok2 := b.(*ssa.UnOp)
 	return ok1 && ok2 && ua.X == ub.X
+}
+
+// c11DirectGuards (R2): a function variable of the direct path is called only where it tested non-nil, and the direct path is
+// entered only for a plain (non-spread) call of a non-variadic function whose parameter count equals the argument count.
+func c11DirectGuards(p *Program, r *Report, m *vmModel) {
+	n := 0
+	for _, fn := range m.fns {
+		k := 0
+		check := func(site ssa.Instruction, blk *ssa.BasicBlock, al *ssa.Alloc) {
+			n++
+			k++
+			good := false
+			for d := blk; d != nil && d.Idom() != nil && !good; d = d.Idom() {
+				id := d.Idom()
+				iff, ok := id.Instrs[len(id.Instrs)-1].(*ssa.If)
+				if !ok {
+					continue
+				}
+				bo, ok := iff.Cond.(*ssa.BinOp)
+				if !ok || !isNilConst(bo.Y) {
+					continue
+				}
+				u, ok := bo.X.(*ssa.UnOp)
+				if !ok || u.X != ssa.Value(al) {
+					continue
+				}
+				if (bo.Op == token.NEQ && edgeOnly(id, 0, d)) || (bo.Op == token.EQL && edgeOnly(id, 1, d)) {
+					good = true
+				}
+			}
+			r.Check(good, "C11.R2", fmt.Sprintf("%s|call of %s under its non-nil test #%d", funcName(fn), al.Comment, k), p.Pos(instrPos(site)), "called only where it tested non-nil",
+				"a function variable is called (or started) on a path where it did not test non-nil: the call of the one signature that matched is skipped and a nil function is invoked instead")
+		}
+		for _, b := range fn.Blocks {
+			for _, in := range b.Instrs {
+				c, ok := in.(*ssa.Call)
+				if !ok {
+					continue
+				}
+				if al := calledLocal(c.Call.Value); al != nil {
+					if _, isSig := derefType(al.Type()).Underlying().(*types.Signature); isSig {
+						check(in, b, al)
+					}
+				}
+				if callee := staticCallee(c); callee != nil && callee.Pkg == m.sp && startsGoroutineWithParam(callee) {
+					for _, a := range c.Call.Args {
+						mc, ok := a.(*ssa.MakeClosure)
+						if !ok {
+							continue
+						}
+						cf := mc.Fn.(*ssa.Function)
+						for _, cb := range cf.Blocks {
+							for _, cin := range cb.Instrs {
+								cc, ok := cin.(ssa.CallInstruction)
+								if !ok {
+									continue
+								}
+								if u, ok := cc.Common().Value.(*ssa.UnOp); ok {
+									if fv, ok := u.X.(*ssa.FreeVar); ok {
+										for i, v := range cf.FreeVars {
+											if v == fv {
+												if al, ok := mc.Bindings[i].(*ssa.Alloc); ok {
+													if _, isSig := derefType(al.Type()).Underlying().(*types.Signature); isSig {
+														check(in, b, al)
+													}
+												}
+											}
+										}
+									}
+								}
+							}
+						}
+					}
+				}
+			}
+		}
+	}
+	r.Note("C11.R2 guarded function-variable calls", n)
+
+	// the direct path is entered only for plain calls of non-variadic functions with matching counts
+	h := m.handlers["expr"]["CallExpr"]
+	if h == nil {
+		return
+	}
+	for _, b := range h.Blocks {
+		for _, in := range b.Instrs {
+			c, ok := in.(*ssa.Call)
+			if !ok {
+				continue
+			}
+			callee := staticCallee(c)
+			if callee == nil || callee.Pkg != m.sp || callee == m.evalExpr || callee.Signature.Results().Len() != 1 {
+				continue
+			}
+			if bt, ok := callee.Signature.Results().At(0).Type().(*types.Basic); !ok || bt.Kind() != types.Bool || len(c.Call.Args) != 3 {
+				continue
+			}
+			// conditions that dominate the call
+			notSpread, notVariadic, counts := false, false, false
+			for d := b; d != nil && d.Idom() != nil; d = d.Idom() {
+				id := d.Idom()
+				iff, ok := id.Instrs[len(id.Instrs)-1].(*ssa.If)
+				if !ok {
+					continue
+				}
+				cond := iff.Cond
+				switch x := cond.(type) {
+				case *ssa.UnOp:
+					if fa, ok := x.X.(*ssa.FieldAddr); ok && x.Op == token.MUL && fieldOfAddr(fa).Name() == "VarArg" && edgeOnly(id, 1, d) {
+						notSpread = true
+					}
+				case *ssa.Call:
+					if x.Call.IsInvoke() && x.Call.Method.Name() == "IsVariadic" && edgeOnly(id, 1, d) {
+						notVariadic = true
+					}
+				case *ssa.BinOp:
+					if x.Op == token.EQL && edgeOnly(id, 0, d) {
+						l, rr := symIdx(x.X, 0), symIdx(x.Y, 0)
+						if strings.HasPrefix(l.base, "NumIn(") && l.off == -1 && rr.off == 0 {
+							counts = true
+						}
+					}
+				}
+			}
+			bad := ""
+			switch {
+			case !notSpread:
+				bad = "a spread call (f(xs...)) can take the direct path: the list is passed as one argument"
+			case !notVariadic:
+				bad = "a variadic function can take the direct path"
+			case !counts:
+				bad = "the direct path is not restricted to calls whose argument count equals the parameter count"
+			}
+			r.Check(bad == "", "C11.R2", h.Name()+"|direct path only for plain calls", p.Pos(c.Pos()), "entered under !VarArg, !IsVariadic() and NumIn()-1 == number of arguments", bad)
+		}
+	}
 }
